@@ -27,6 +27,9 @@ done
   for f in mutants/$p/*.patch; do [ -f "$f" ] && echo "mutant $f"; done
   for f in benign/$p/*.patch; do [ -f "$f" ] && echo "benign $f"; done
   for d in seeded/$p-*; do [ -f "$d/patch.diff" ] && echo "seeded $d/patch.diff"; done
-} | xargs -P 6 -L 1 bash -c 'v=$(tools/runpatch.sh "$1" '"$p"' 2>&1 | tail -1 | cut -d" " -f1); printf "%s\t%s\t%s\n" "$0" "$1" "$v"' >> "$tmp/sweep.tsv"
+  # the archives of behaviour-preserving refactors written by independent sub-agents for
+  # ALL properties (false-alarm rounds 2-4): this property's check must stay silent on each
+  for f in benign/round*_all/C*/R[0-9].diff; do [ -f "$f" ] && echo "archive $f"; done
+} | xargs -P 8 -L 1 bash -c 'v=$(tools/runpatch.sh "$1" '"$p"' 2>&1 | tail -1 | cut -d" " -f1); printf "%s\t%s\t%s\n" "$0" "$1" "$v"' >> "$tmp/sweep.tsv"
 python3 tools/merge_thorough.py "$p" "$tmp/configs.tsv" "$tmp/sweep.tsv" $(( $(date +%s) - t0 )) || rc=2
 exit $rc
